@@ -134,6 +134,61 @@ def _gen_bichain(rng: random.Random):
     return g, outs, conds
 
 
+def _gen_samebase(rng: random.Random):
+    """structured: SEVERAL CONDITIONS OVER ONE BASE VARIABLE in different worlds (Z_w = z', Z = z), equal and different values,
+    both listing orders; Z has a child Y (the outcome, in one of the worlds) and usually a parent X that the world w sets, so
+    that the copies of Z are distinct nodes of the counterfactual graph and rule 2 can apply to one of them; sometimes the
+    outcome shares its base variable with a condition instead (a third copy of Z, or Y itself also conditioned on in another
+    world).  What is exchanged for an intervention must be the value of THAT condition, not of a namesake."""
+    n = rng.choice([3, 3, 4])
+    order = list(range(n))
+    rng.shuffle(order)
+    x, z, y = order[0], order[1], order[2]
+    di = [[z, y]]
+    if rng.random() < 0.85:
+        di.append([x, z])
+    for i in range(n):
+        for j in range(i + 1, n):
+            e = [order[i], order[j]]
+            if e not in di and rng.random() < 0.2:
+                di.append(e)
+    bi = []
+    for i in range(n):
+        for j in range(i + 1, n):
+            if rng.random() < 0.15:
+                bi.append([order[i], order[j]])
+    g = {"nodes": sorted(order), "di": di, "bi": bi}
+    star = lambda p_=0.5: "p" if rng.random() < p_ else "m"    # noqa: E731
+    others = [v_ for v_ in order if v_ not in (z, y)]
+    w1 = ((x, star()),)
+    pool = [(), w1]
+    if rng.random() < 0.5:
+        w2 = ((x, "p" if w1[0][1] == "m" else "m"),) if rng.random() < 0.6 or len(others) < 2 else \
+            tuple(sorted((o, star()) for o in others[:2]))
+        if w2 not in pool:
+            pool.append(w2)
+    ws = rng.sample(pool, 2)
+    a = star()
+    b = a if rng.random() < 0.35 else ("p" if a == "m" else "m")
+    conds = [[K.mkvar(z, ws[0]), a], [K.mkvar(z, ws[1]), b]]
+    r = rng.random()
+    if r < 0.65:
+        outs = [[K.mkvar(y, rng.choice(pool)), star(0.3)]]
+    elif r < 0.85 and len(pool) == 3:
+        w3 = [w for w in pool if w not in ws][0]
+        outs = [[K.mkvar(z, w3), star()], [K.mkvar(y, rng.choice(pool)), star(0.3)]][:rng.choice([1, 2])]
+    else:
+        wy = rng.sample(pool, 2)
+        outs = [[K.mkvar(y, wy[0]), star(0.3)]]
+        conds.append([K.mkvar(y, wy[1]), star(0.3)])
+    if rng.random() < 0.25 and len(others) > 1:
+        conds.append([K.mkvar(others[1], rng.choice([w for w in pool if others[1] not in {n_ for n_, _ in w}])), star(0.3)])
+    rng.shuffle(conds)
+    keys = set()
+    conds = [c for c in conds if not (C.enc(c[0]) in keys or keys.add(C.enc(c[0])))]
+    return g, outs, conds
+
+
 def _gen_observational(rng: random.Random):
     """structured: an observational conditional query P(y | x) -- factual variables, unstarred values, disjoint names: the
     static part of the fragment of idcstar_sound_fragment (whether rule 2 applies / something is marginalised varies)"""
@@ -157,6 +212,11 @@ def cases(rng: random.Random, tier: str):
             g, outs, conds = _gen_bichain(rng)
             out.append({"g": g, "outcomes": outs, "conditions": conds, "seed": rng.randrange(1 << 30), "gen": "bichain"})
             continue
+        if rng.random() < 0.06:
+            g, outs, conds = _gen_samebase(rng)
+            if not ({C.enc(v_) for v_, _ in outs} & {C.enc(v_) for v_, _ in conds}):
+                out.append({"g": g, "outcomes": outs, "conditions": conds, "seed": rng.randrange(1 << 30), "gen": "samebase"})
+                continue
         if rng.random() < 0.07:
             g, outs, conds = _gen_observational(rng)
             out.append({"g": g, "outcomes": outs, "conditions": conds, "seed": rng.randrange(1 << 30), "gen": "observational"})
@@ -501,6 +561,12 @@ def _judge(case, res, exc, n_models, strategy=None):
         if bad is not None:
             return (f"estimand {expr} contains the term {bad} whose subscript set gives one variable both values: it "
                     "denotes nothing"), "illformed"
+        if not C07.single_world(expr):
+            # as in C07: a term over several worlds is not an interventional term (theorem idcstar_vocab: the unchanged code
+            # never returns one); never a listed finding
+            mixed = next(lf for lf in S.leaves(expr) if not C07.single_world(lf))
+            return (f"estimand {expr} contains the term {mixed} that mixes variables of different worlds: it is a counterfactual "
+                    "joint distribution, not an interventional term, so nothing has been identified"), "vocabulary"
         w = S.check_estimand(g, jt, expr, case.get("seed", 0), n_models=n_models, cond=cond)
         if w is None:
             return None, None
@@ -689,6 +755,37 @@ def in_fragment_x(case):
     return not c2 and canon(o2) in (canon(want), canon(same))
 
 
+def _model_answers(case):
+    """the answers of the Lean MODEL on this case, one per iteration order (same list as `by_order`), or None when the driver
+    is not available.  The model is the correspondence-checked copy of the code the listed findings were written about."""
+    try:
+        m = canon_model(case, C.parse(C.LeanModel().ask(request(case))))
+    except Exception:  # noqa: BLE001
+        return None
+    return m[1] if m and m[0] == "orders" else None
+
+
+def _same_wrong_answer_as_model(case, r):
+    """A wrong answer is attributed to a LISTED finding only when the model of the code gives the very same answer on this
+    input (under the same iteration order): the listed finding explains THAT wrong answer, not any other wrong answer the real
+    code may give on an input where the unchanged code is wrong as well.  (True / False, model's answer); True when unknown."""
+    mans = _model_answers(case)
+    if mans is None:
+        return True, None
+    strategies = K.id_strategies(joint(case))
+    st = r.get("strategy")
+    if st is None:
+        real = r["unpatched"]
+        return (real in mans), (mans[0] if mans else None)
+    try:
+        i = [tuple(s_) for s_ in strategies].index(tuple(st))
+    except ValueError:
+        return True, None
+    if i >= len(mans) or i >= len(r["by_order"]):
+        return True, None
+    return r["by_order"][i] == mans[i], mans[i]
+
+
 COARSE = ("F11", "normalisation:subscript", "inherited", "reassociation", "exchange:polarity", "exchange:conditions", "exchange:separation",
           "conditional:shared-base")
 
@@ -781,6 +878,12 @@ def run_python(case):
         if r["order_verdict"] == "mixed":
             # the same input is answered correctly under one iteration order and wrongly under another
             ck = json.dumps(["order-dependent-verdict", json.loads(ck)])
+        same, mans = _same_wrong_answer_as_model(case, r)
+        if not same:
+            # never listed: a wrong answer that is not the wrong answer of the code the findings describe
+            ck = json.dumps(["differs-from-the-wrong-answer-of-the-modelled-code", json.loads(ck)])
+            out["fail"] += (" [the MODEL of idc_star (Y0/Model/IdcStar.lean), about which the listed finding was written, answers "
+                            f"{json.dumps(mans)[:300]} on this input: the listed finding does not explain this wrong answer]")
         out["finding_key"] = ck
     elif r["fail"] and not case.get("_noshrink") and _shrink_budget():
         small, key = SHRINK.shrink_to_key(case, r["kind"])
